@@ -1188,3 +1188,34 @@ def shrink(c, sig, case):
     body = build(desc, sess.addpath)
     case = dict(case, body_hex=bytes(body).hex(), description=describe(desc), observed=str(impl_canon(impl_decode(body, sess)))[:1500])
     return case
+
+
+def replay(path):
+    """./check C02 --replay <file>: decode the recorded body again; the oracle is Spec_Wire.ref_update evaluated in Coq"""
+    data = json.load(open(path))
+    case = data.get('case', data)
+    run = Run('C02', 'replay', 0)
+    common.standard_build(run, ['T5'])
+    sess = next(s for s in make_sessions() if s.key == case['session'])
+    body = bytes.fromhex(case['body_hex'])
+    o = impl_decode(body, sess)
+    c = {'sess': sess, 'body': body, 'impl': o}
+    ok, ev, _ = eval_two_pass([c], 'c02r', True)
+    ic = impl_canon(o)
+    agree_fixed = bool(ev['fixed'][0]) and model_canon(ev['fixed'][0]) == ic
+    agree_pinned = bool(ev['pinned'][0]) and model_canon(ev['pinned'][0]) == ic
+    ref = ref_canon(ev['ref'][0]) if ev['ref'][0] else None
+    diffs = []
+    if isinstance(ref, dict):
+        if o['kind'] != 'upd':
+            diffs.append(f'well-formed UPDATE not decoded: {ic}')
+        else:
+            diffs = obs_vs_expected(o, ref) + (json_vs_expected(o['json'], ref) if 'json' in o else ['json not rendered'])
+    elif isinstance(ref, tuple):
+        if o['kind'] != 'eor' or tuple(o['fam']) != tuple(ref[1:]):
+            diffs.append(f'End-of-RIB {ref[1:]} expected, got {ic}')
+    print(json.dumps({'session': sess.key, 'body': body.hex(), 'reference': 'not a well-formed UPDATE' if ref is None else str(ref)[:1500],
+                      'observed': str(ic)[:1500], 'matches_repaired_model': agree_fixed, 'matches_pinned_model': agree_pinned,
+                      'property': diffs or 'holds'}, indent=1))
+    common.cleanup()
+    return 1 if diffs or not (agree_fixed or agree_pinned) else 0
